@@ -68,12 +68,12 @@ def _is_annot(toks, e):
     return False
 
 
-def main():
-    path, fname = sys.argv[1], sys.argv[2]
+def failing_arms(path, fname, timeout=300):
+    """verify `fname` once per arm of its outermost match with every other arm assumed away.
+    returns list of (arm pattern text, verified: bool|None)"""
     short = fname.split("::")[-1]
     src = open(path).read()
     toks = L.lex(src)
-    # find `fn short`
     idx = None
     for i, t in enumerate(toks):
         if t.kind == "ident" and t.text == "fn":
@@ -82,6 +82,8 @@ def main():
                 k += 1
             if toks[k].text == short:
                 idx = i
+    if idx is None:
+        return []
     j = idx
     d = 0
     while True:
@@ -94,16 +96,12 @@ def main():
             break
         j += 1
     close = L.match_close(toks, j)
-    # skip annotation prologue: first `match` whose token is not inside a comment marker region is fine
     arms = arms_of_first_match(toks, j, close)
+    out = []
+    bpath = path.replace(".rs", "_bisect.rs")
     for n, (k, p, e, end) in enumerate(arms):
-        out = []
-        pos = 0
-        pieces = []
-        cur = 0
-        txt = []
-        last = 0
         res = []
+        last = 0
         for m, (k2, p2, e2, end2) in enumerate(arms):
             res.append(L.text(toks[last:e2]))
             if m == n:
@@ -112,11 +110,22 @@ def main():
                 res.append("{ assume(false); vstd::pervasive::unreached() }")
             last = end2
         res.append(L.text(toks[last:]))
-        open(path.replace(".rs", "_bisect.rs"), "w").write("".join(res))
-        r = subprocess.run(["verus", path.replace(".rs", "_bisect.rs"), "--verify-function", fname, "--verify-root"], capture_output=True, text=True)
-        verdict = re.findall(r"verification results.*", r.stdout + r.stderr)
-        errs = re.findall(r"^error.*", r.stdout + r.stderr, re.M)
-        print(n, L.sigtext(toks[k:p])[:70], "|", verdict[0] if verdict else "??", errs[:3])
+        open(bpath, "w").write("".join(res))
+        try:
+            r = subprocess.run(["verus", bpath, "--verify-function", fname, "--verify-root"], capture_output=True, text=True, timeout=timeout)
+            verdict = re.findall(r"verification results:: (\d+) verified, (\d+) errors", r.stdout + r.stderr)
+            ok = bool(verdict) and verdict[0][1] == "0" and verdict[0][0] != "0"
+            if not verdict:
+                ok = None
+        except subprocess.TimeoutExpired:
+            ok = None
+        out.append((L.sigtext(toks[k:p]), ok))
+    return out
+
+
+def main():
+    for pat, ok in failing_arms(sys.argv[1], sys.argv[2]):
+        print("ok  " if ok else ("FAIL" if ok is False else "??  "), pat[:90])
 
 
 if __name__ == "__main__":
